@@ -1,14 +1,18 @@
 #!/bin/bash
 # usage: tools/try_patch.sh <patch.diff> <PROP> [<PROP> ...]
-# applies a patch to /repo's working tree, runs the quick checks, and ALWAYS restores the tree.
+# applies a patch to the repository's working tree (VERIF_REPO, default /repo), runs the quick checks
+# of this verif tree, and ALWAYS restores the repository.  Evidence of these runs goes to work/evidence-mutant.
 set -u
 patch="$1"; shift
-cd /repo || exit 2
+ROOT=$(cd "$(dirname "$0")/.." && pwd)
+REPO=${VERIF_REPO:-/repo}
+export VERIF_EVIDENCE_DIR="$ROOT/work/evidence-mutant"
+cd "$REPO" || exit 2
 if ! git diff --quiet; then echo "repo working tree not clean"; exit 2; fi
-restore() { git -C /repo checkout -- . ; }
+restore() { git -C "$REPO" checkout -- . ; }
 trap restore EXIT
 git apply "$patch" || { echo "patch does not apply"; exit 2; }
-cd /verif
+cd "$ROOT"
 for p in "$@"; do
   out=$(./check "$p" --tier "${TIER:-quick}" 2>/dev/null)
   rc=$?
